@@ -945,7 +945,11 @@ class Stage:
 
     @property
     def objective(self):
-        return self._objective
+        # all terms the solver minimises: those of this stage and of its sub-stages
+        r = self._objective
+        for s in self._stages:
+            r = r + s.objective
+        return r
 
     @property
     def x(self):
